@@ -80,7 +80,7 @@ Pairs == UNION {PairsOf(kf[1], kf[2]) : kf \in {x \in KindFlavours : x[1] \in Pa
 
 \* extension names in lower and upper case (both are extensions: the prefix test folds case);
 \* unknown schema keywords, among them names starting with "$" (draft-06 style)
-ExtNames == {"x-ext", "x-"}
+ExtNames == {"x-ext", "x-", "x-camelCase"}
 UnknownNames == {"unknownKeyword", "$comment", "$id", "xnot-ext", "-x-", "Definitions2"}
 Exts ==
   UNION {{Case("ext", <<>>, kf[1], kf[2], <<[name |-> n, vt |-> "any", cls |-> c]>>) : c \in Payloads, n \in {"x-ext"}}
@@ -172,7 +172,8 @@ SingleMembers(k, fl) ==
 ValidCases == UNION {{Case("valid", st[1], st[2], st[3], ms) : ms \in SingleMembers(st[2], st[3])} : st \in Grown}
 
 \* ---- odd strings where a URL or a reference is expected (C07)
-OddStrings == {"hash", "hashslash", "dblhash", "badpct", "badhost", "noscheme", "space", "ctl", "tilde2", "onlyquery", "longfrag"}
+OddStrings == {"hash", "hashslash", "dblhash", "badpct", "badhost", "noscheme", "space", "ctl", "tilde2", "onlyquery", "longfrag",
+               "urnbackslash", "queryquote", "urnplain"}
 UrlLike(k, fl) == {kw \in Free(k, fl) : kw \in {"$ref", "$schema", "id", "url", "termsOfService", "authorizationUrl", "tokenUrl"}}
 OddCases ==
   UNION {UNION {{Case("odd", <<>>, kf[1], kf[2], <<[name |-> kw, vt |-> "oddstr", cls |-> c]>>) : c \in OddStrings}
